@@ -112,6 +112,15 @@ def run(ctx):
                                       "bits": [rng.randint(0, 1)], "shape": shape, "family": True, "timeout": 300, "perturb": hexf(eps * mult)})
                 cases.append({"fn": "angle_sequence", "p": [hexf(x) for x in p], "eps": hexf(eps), "suc": hexf(suc),
                               "npseed": rng.randrange(2 ** 31), "shape": shape, "family": True, "timeout": 300})
+        # directed: single-term targets c w^n / c w^-n with (eps, suc) such that |c| (1/suc - 1) >= eps (the success factor is not negligible)
+        for n in ((1, 2, 4, 6) if quick else range(1, 13)):
+            for cval in ((0.8, -0.6) if quick else (0.8, -0.6, 0.3, 0.9)):
+                for eps, suc in ((1e-3, 0.99), (1e-4, 0.999), (1e-2, 0.9)):
+                    for top in (True, False):
+                        p = [0.0] * (n + 1)
+                        p[n if top else 0] = cval
+                        cases.append({"fn": "angle_sequence", "p": [hexf(x) for x in p], "eps": hexf(eps), "suc": hexf(suc),
+                                      "bits": [rng.randint(0, 1) for _ in range(n)], "shape": "single-term", "family": True, "timeout": 300})
         # directed: the capitalisation eps/4 cancels (or nearly cancels) an extreme coefficient
         for n in ([2, 5, 8] if quick else range(1, 13)):
             for off in (0.0, 1e-7, -3e-6):
